@@ -133,6 +133,26 @@ def directed(rng, tier):
         yield Scn('hs%d' % n, lines, {'class': 'roundtrip/hostile-by-api', 'k': k, 'flags': 0})
 
 
+    # lists with declared defaults that are EMPTY in the state, after non-empty lists of the same section (schema order),
+    # emptied by the text or by the API
+    for k2, how in enumerate((['parse_buf 0 ' + hx(b'il = {3}\nsl = {}\nbl = {true}\nfl = {}\nsec { l = {} }\n')],
+                              ['setlist 0 %s str' % hx(b'sl'), 'setlist 0 %s float' % hx(b'fl')],
+                              ['parse_buf 0 ' + hx(b'il = {}\nsl = {x}\nfl = {}\n')],
+                              ['setlist 0 %s int' % hx(b'il'), 'setlist 0 %s str' % hx(b'sl'), 'setlist 0 %s float' % hx(b'fl'), 'setlist 0 %s str' % hx(b'sec|l')])):
+        schema = make_schema(r)
+        for o in schema:
+            if o.name == b'il':
+                o.default = b'{1, 2}'
+            elif o.name == b'sl':
+                o.default = b'{a}'
+            elif o.name == b'sec':
+                o.sub[1].default = b'{x, "y z"}'
+        lines = gen.prelude(schema, 0) + ['init 1 0 0', 'init 2 0 0'] + how
+        k = len(lines)
+        lines += ['dump 0', 'print 0 0', 'roundtrip 0 1', 'dump 1', 'print 1 0', 'roundtrip 1 2', 'print 2 0']
+        yield Scn('el%d' % k2, lines, {'class': 'roundtrip/emptied-lists', 'k': k, 'flags': 0})
+
+
 def nontrivial(scn, il):
     return True
 
